@@ -37,7 +37,7 @@ CBMC_FLAGS = ["--no-malloc-may-fail", "--no-undefined-shift-check", "--no-signed
 
 class Harness:
     def __init__(self, name, unwind=3, unwindset=None, timeout=900, mem_gb=14, kind="proof",
-                 note="", bounds=None, cbmc_args=None, focus=None, covers=None):
+                 note="", bounds=None, cbmc_args=None, focus=None, covers=None, expect_panic=None):
         self.name = name
         self.unwind = unwind
         self.unwindset = list(unwindset or [])   # (regex over "<file> :: <function>", bound)
@@ -49,6 +49,9 @@ class Harness:
         self.cbmc_args = cbmc_args or []
         self.focus = focus      # property id whose tags are decided (set by the driver)
         self.covers = covers or []   # COVER/ witnesses that must be satisfied in this harness
+        # regex: the harness MUST end in a panic of the real code matching it ("refused loudly");
+        # its tagged assert!(false) after the call must then be unreachable
+        self.expect_panic = expect_panic
 
     @property
     def short(self):
@@ -380,6 +383,16 @@ def run_cbmc(h, goto, focus, want_trace=False, only_props=None):
     res.update(tagged_fail=tagged_fail, other_fail=other_fail[:12], covers_sat=sorted(set(covers_sat)),
                covers_unsat=sorted(c for c in (set(covers_unsat) - set(covers_sat)) if c in h.covers) + sorted(c for c in h.covers if c not in covers_sat and c not in covers_unsat), decided_tags=sorted(decided_tags),
                unreachable_tags=sorted(unreachable_tags - decided_tags))
+    if h.expect_panic:
+        expected = [c for c in other_fail if re.search(h.expect_panic, c["desc"])]
+        other_fail = [c for c in other_fail if not re.search(h.expect_panic, c["desc"])]
+        res["other_fail"] = other_fail[:12]
+        res["expected_panics"] = sorted(set(c["desc"] for c in expected))
+        if expected and not tagged_fail:
+            # the refusal happened: the tagged assertion behind it is unreachable, as it must be
+            decided_tags |= set(unreachable_tags)
+            res["decided_tags"] = sorted(decided_tags)
+            res["unreachable_tags"] = []
     missing = [p["name"] for p in sel if p["name"] not in results]
     res["wall_s"] = round(time.time() - t0, 1)
     if want_trace:
